@@ -84,7 +84,11 @@ func isConnectionSpecific(k []byte) bool {
 
 func ToLower(b []byte) []byte {
 	for i := range b {
-		b[i] |= 32
+		// Only the letters: setting the bit on anything else corrupts it, '_'
+		// for one becomes 0x7f.
+		if c := b[i]; c >= 'A' && c <= 'Z' {
+			b[i] = c | 32
+		}
 	}
 
 	return b
